@@ -378,12 +378,13 @@ class ErrorToken(TokenT):
     @property
     def start(self) -> int:
         """Return the start position of this token."""
-        return self.index
+        # `value` is the text the lexer had scanned when it gave up at `index`.
+        return self.index - len(self.value)
 
     @property
     def stop(self) -> int:
         """Return the end position of this token."""
-        return self.index + len(self.value)
+        return self.index
 
 
 def is_content_token(token: TokenT) -> TypeGuard[ContentToken]:
